@@ -11,6 +11,7 @@
 import Kvass.Pins.Coord
 import Kvass.Pins.Sidecar
 import Kvass.Props.C03
+import Kvass.Proofs.LoopRepair
 
 namespace Kvass.Props.C06
 open Kvass Kvass.Coord Kvass.Spec
@@ -111,5 +112,82 @@ theorem C06_gc_duplicate_resolved (o : Opt) (active : List Hash) (ss0 : List SI)
     (Gen.gcLess o si.rt sj.rt i j = true → entry (gc o active ss0) i h = none ∧ entry (gc o active ss0) j h = some vj) ∧
     (Gen.gcLess o si.rt sj.rt i j = false → entry (gc o active ss0) i h = some vi ∧ entry (gc o active ss0) j h = none) :=
   C03.C03_gc_duplicate_resolved o active ss0 i j si sj h vi vj hnd0 hact hij hi hci hgi hsti h3i hj hcj hgj hstj h3j hothers
+
+/-! ### the repairs on a whole cycle and in the closed loop -/
+
+/-- a lonely copy in transfer is repaired by one cycle, *whatever the later stages of that cycle do*:
+    in the final plan the shard holds the target in normal state, or holds it in transfer next to an
+    in-sync shard holding it in normal state -/
+theorem C06_lonely_repaired (swr : Swr) (sc : Sched) (inp : Input) (hne : stopsEarly inp = false)
+    (hnd : ∀ p ∈ inp.probes, (reported p).keys.Nodup)
+    {i : Nat} {p : Probe} {h : Hash} {r : St} (hp : inp.probes[i]? = some p) (hs : inSync p = true)
+    (hr : (reported p).get h = some r) (hst : r.state = .inTransfer) (h3 : 3 ≤ r.times) (ha : h ∈ inp.active)
+    (halone : ∀ k pk, inp.probes[k]? = some pk → k ≠ i → inSync pk = true → (reported pk).get h = none) :
+    ∃ fin v, (cycle swr sc inp).final[i]? = some fin ∧ fin.scraping.get h = some v ∧
+      (v.state = .normal ∨
+       ∃ d sd vd, d ≠ i ∧ (cycle swr sc inp).final[d]? = some sd ∧ sd.changeable = true ∧
+         sd.scraping.get h = some vd ∧ vd.state = .normal) :=
+  lonely_repaired swr sc inp hne hnd hp hs hr hst h3 ha halone
+
+/-- **the reports follow the plan** (closed-loop model): after the requests of a full, crash-free,
+    fault-free cycle every running sidecar reports exactly the keys planned for it, each in the
+    planned state -/
+theorem C06_reports_follow_plan (swr : Swr) (env : Loop.Env) (w : Loop.World) (sc : Sched)
+    (hrep : w.replicas ≤ w.shards.length)
+    (hne : stopsEarly (Loop.inputOf env w [] false) = false)
+    (hnc : (cycle swr sc (Loop.inputOf env w [] false)).crashed = false)
+    (hnd : ∀ sh ∈ w.running, (Loop.statusOf sh).keys.Nodup) :
+    ∀ (i : Nat) (sh : Loop.Shard), w.running[i]? = some sh →
+      ∃ (fin : SI) (sh' : Loop.Shard), (cycle swr sc (Loop.inputOf env w [] false)).final[i]? = some fin ∧
+        (Loop.applyOutcome w [] (cycle swr sc (Loop.inputOf env w [] false))).shards[i]? = some sh' ∧
+        (∀ h, h ∈ (Loop.statusOf sh').keys ↔ h ∈ (planned w.active fin).keys) ∧
+        (∀ h v, (planned w.active fin).get h = some v → ∃ r, (Loop.statusOf sh').get h = some r ∧ r.state = v.state) :=
+  Loop.applyOutcome_report swr env w sc hrep hne hnc hnd
+
+/-- **no target stays marked in-transfer for ever** (closed-loop model): one fault-free cycle after
+    which some running sidecar reports the target in normal state -/
+theorem C06_loop_lonely_repaired (swr : Swr) (env : Loop.Env) (w : Loop.World) (sc : Sched)
+    (hrep : w.replicas ≤ w.shards.length)
+    (hne : stopsEarly (Loop.inputOf env w [] false) = false)
+    (hnc : (cycle swr sc (Loop.inputOf env w [] false)).crashed = false)
+    (hnd : ∀ sh ∈ w.running, (Loop.statusOf sh).keys.Nodup)
+    {i : Nat} {sh : Loop.Shard} {h : Hash} {r : St} (hrun : w.running[i]? = some sh)
+    (hr : (Loop.statusOf sh).get h = some r) (hst : r.state = .inTransfer) (h3 : 3 ≤ r.times) (ha : h ∈ w.active)
+    (halone : ∀ k shk, w.running[k]? = some shk → k ≠ i → (Loop.statusOf shk).get h = none) :
+    ∃ (d : Nat) (shd : Loop.Shard) (rd : St),
+      (Loop.applyOutcome w [] (cycle swr sc (Loop.inputOf env w [] false))).shards[d]? = some shd ∧ d < w.replicas ∧
+      (Loop.statusOf shd).get h = some rd ∧ rd.state = .normal ∧
+      ((d = i) ∨ ∃ shi ri, (Loop.applyOutcome w [] (cycle swr sc (Loop.inputOf env w [] false))).shards[i]? = some shi ∧
+        (Loop.statusOf shi).get h = some ri ∧ ri.state = .inTransfer) :=
+  Loop.loop_lonely_repaired swr env w sc hrep hne hnc hnd hrun hr hst h3 ha halone
+
+/-- **none stays duplicated for ever** (closed-loop model): once `gcTargets` has left at most one
+    normal copy (`C06_gc_duplicate_resolved`), no later stage and no sidecar brings a second one back -/
+theorem C06_loop_oneNormal (swr : Swr) (env : Loop.Env) (w : Loop.World) (sc : Sched) (h : Hash)
+    (hrep : w.replicas ≤ w.shards.length)
+    (hne : stopsEarly (Loop.inputOf env w [] false) = false)
+    (hnc : (cycle swr sc (Loop.inputOf env w [] false)).crashed = false)
+    (hnd : ∀ sh ∈ w.running, (Loop.statusOf sh).keys.Nodup)
+    (h0 : OneNormalAt h (startCS (Loop.inputOf env w [] false))) :
+    ∀ (a b : Nat) (sha shb : Loop.Shard) (ra rb : St), a ≠ b → a < w.replicas → b < w.replicas →
+      (Loop.applyOutcome w [] (cycle swr sc (Loop.inputOf env w [] false))).shards[a]? = some sha →
+      (Loop.applyOutcome w [] (cycle swr sc (Loop.inputOf env w [] false))).shards[b]? = some shb →
+      (Loop.statusOf sha).get h = some ra → (Loop.statusOf shb).get h = some rb →
+      ra.state = .normal → rb.state = .normal → False :=
+  Loop.loop_oneNormal swr env w sc h hrep hne hnc hnd h0
+
+/-- non-vacuity: a world in which shard 0 reports target 1 in transfer (5 scrapes), alone -/
+def exWorld : Loop.World :=
+  { shards := [⟨{ targets := [⟨1, 10, 10, .inTransfer, 1⟩], status := [(1, { health := .good, series := 10, total := 10, state := .inTransfer, times := 5 })],
+                   idleAt := none }, 7⟩,
+               ⟨{ targets := [], status := [], idleAt := some 0 }, 3⟩],
+    replicas := 2, active := [1], explore := [] }
+def exEnv : Loop.Env := { opt := ⟨0, 1000, 5, 1, false, false⟩, maxIdle := 3 }
+
+example : stopsEarly (Loop.inputOf exEnv exWorld [] false) = false ∧
+    (cycle (fun x r => x * r / 10) {} (Loop.inputOf exEnv exWorld [] false)).crashed = false ∧
+    ((Loop.applyOutcome exWorld [] (cycle (fun x r => x * r / 10) {} (Loop.inputOf exEnv exWorld [] false))).shards.map
+      fun sh => (Loop.statusOf sh).map fun p => (p.1, p.2.state)) = [[(1, .normal)], []] := by
+  decide
 
 end Kvass.Props.C06
